@@ -26,21 +26,40 @@ func checkC09(w *World, r *Report) {
 	}
 	opts := pathOpts{InlineDepth: 3, Inline: noInline(trig, pred)}
 
+	ruleClamp(w, r, "C09", trig, pred, opts)
+	ruleStoredValues(w, r, "C09", trig, pred, opts)
+	ruleNegSetCurrent(w, r, "C09", trig, pred, opts)
+	ruleSetTotal(w, r, "C09", trig, pred, opts)
+	ruleEnableTrigger(w, r, "C09", trig, pred, opts)
+	ruleAbort(w, r, "C09", trig, pred, opts)
+	rulePredicate(w, r, "C09", trig, pred, opts)
+	ruleCtorFlag(w, r, "C09", trig, pred, opts)
+	ruleSetRefill(w, r, "C09", trig, pred, opts)
+	ruleGetters(w, r, "C09", trig, pred, opts)
+	ruleShorthands(w, r, "C09", trig, pred, opts)
+	r.Floor("C09.F1v", 4, "increment/set closures")
+	r.Floor("C09.F9", 3, "getters")
+	r.Floor("C09.F10", 4, "shorthands")
+}
+
+func ruleClamp(w *World, r *Report, pfx string, trig, pred *ssa.Function, opts pathOpts) {
 	// G1: clamp discipline after every store to current, in every function of the module.
 	nWriters := 0
-	for _, fn := range w.ModFns {
-		if !fnStoresField(fn, tBState, "current") {
-			continue
-		}
+	covered := map[*ssa.Function]bool{}
+	analyse := func(fn *ssa.Function, construct string, mustStore bool) {
 		nWriters++
-		construct := "writer-of-current:" + fnShort(fn)
 		bad := ""
 		var wit []string
+		stored := false
 		nPaths, over := w.enumPaths(fn, opts, func(p *Path) {
+			sts := p.storesTo(tBState, "current")
+			for _, s := range sts {
+				stored = true
+				covered[s.Ev.F.Fn] = true
+			}
 			if bad != "" {
 				return
 			}
-			sts := p.storesTo(tBState, "current")
 			for i, s := range sts {
 				isClamp := isLoad(Val{stripConv(s.Val.V), s.Val.F, s.Val.E}, tBState, "total")
 				if isClamp {
@@ -100,15 +119,33 @@ func checkC09(w *World, r *Report) {
 			}
 		})
 		if over {
-			r.Undecided("C09.G1", construct, w.pos(fn.Pos()), "path cap exceeded")
-			continue
+			r.Undecided(pfx+".G1", construct, w.pos(fn.Pos()), "path cap exceeded")
+			return
 		}
-		r.Check(bad == "", "C09.G1", construct, w.pos(fn.Pos()),
+		if mustStore && !stored && bad == "" {
+			bad = "the operation never stores to current (its documented effect on the counter is missing)"
+		}
+		r.Check(bad == "", pfx+".G1", construct, w.pos(fn.Pos()),
 			fmt.Sprintf("%d paths: every value store to current is followed by the clamp-and-trigger guard; every clamp store by the trigger", nPaths), bad, wit...)
 	}
-	r.Floor("C09.G1", 6, "functions that store to bState.current (4 increment/set closures, SetTotal, EnableTriggerComplete)")
+	// the six documented writers, through whatever helpers they use (inlined)
+	for _, spec := range []string{"mpb.(*Bar).IncrInt64", "mpb.(*Bar).EwmaIncrInt64", "mpb.(*Bar).SetCurrent", "mpb.(*Bar).EwmaSetCurrent", "mpb.(*Bar).SetTotal", "mpb.(*Bar).EnableTriggerComplete"} {
+		if clo, _ := w.apiClosure(r, spec); clo != nil {
+			analyse(clo, "API:"+spec+" closure", true)
+		}
+	}
+	// any other writer of current in the module obeys the same discipline
+	for _, fn := range w.ModFns {
+		if fnStoresField(fn, tBState, "current") && !covered[fn] {
+			analyse(fn, "writer-of-current:"+fnShort(fn), false)
+		}
+	}
+	r.Floor(pfx+".G1", 6, "the six API closures that write bState.current")
 	r.Inv["writers_of_current"] = nWriters
 
+}
+
+func ruleStoredValues(w *World, r *Report, pfx string, trig, pred *ssa.Function, opts pathOpts) {
 	// F1v: stored values: increments accumulate, SetCurrent stores its argument.
 	for _, m := range []struct {
 		spec string
@@ -143,9 +180,12 @@ func checkC09(w *World, r *Report) {
 				bad = "first store to current is not the method's argument"
 			}
 		})
-		r.Check(bad == "" && n > 0, "C09.F1v", "API:"+m.spec+" closure", w.pos(clo.Pos()), "stored value is current+n / the argument on all paths", bad)
+		r.Check(bad == "" && n > 0, pfx+".F1v", "API:"+m.spec+" closure", w.pos(clo.Pos()), "stored value is current+n / the argument on all paths", bad)
 	}
 
+}
+
+func ruleNegSetCurrent(w *World, r *Report, pfx string, trig, pred *ssa.Function, opts pathOpts) {
 	// F2: negative SetCurrent ignored: the offer is control dependent on arg >= 0.
 	for _, spec := range []string{"mpb.(*Bar).SetCurrent", "mpb.(*Bar).EwmaSetCurrent"} {
 		fn := w.Func(spec)
@@ -165,9 +205,12 @@ func checkC09(w *World, r *Report) {
 				}
 			}
 		})
-		r.Check(bad == "" && sawOffer, "C09.F2", "API:"+spec, w.pos(fn.Pos()), "offer only under arg >= 0", bad+"")
+		r.Check(bad == "" && sawOffer, pfx+".F2", "API:"+spec, w.pos(fn.Pos()), "offer only under arg >= 0", bad+"")
 	}
 
+}
+
+func ruleSetTotal(w *World, r *Report, pfx string, trig, pred *ssa.Function, opts pathOpts) {
 	// F3: SetTotal
 	if clo, off := w.apiClosure(r, "mpb.(*Bar).SetTotal"); clo != nil {
 		meth := off.Fn
@@ -254,10 +297,13 @@ func checkC09(w *World, r *Report) {
 				wit = p.describe()
 			}
 		})
-		r.Check(bad == "" && sawNeg && sawPos && sawComplete, "C09.F3", "API:mpb.(*Bar).SetTotal closure", w.pos(clo.Pos()),
+		r.Check(bad == "" && sawNeg && sawPos && sawComplete, pfx+".F3", "API:mpb.(*Bar).SetTotal closure", w.pos(clo.Pos()),
 			"ignored under triggerComplete; total<-current iff arg<0 else arg; complete => current<-total, trigger", orStr(bad, "SetTotal lacks one of the three documented branches (negative total, explicit total, complete)"), wit...)
 	}
 
+}
+
+func ruleEnableTrigger(w *World, r *Report, pfx string, trig, pred *ssa.Function, opts pathOpts) {
 	// F4: EnableTriggerComplete
 	if clo, _ := w.apiClosure(r, "mpb.(*Bar).EnableTriggerComplete"); clo != nil {
 		bad := ""
@@ -311,10 +357,13 @@ func checkC09(w *World, r *Report) {
 				wit = p.describe()
 			}
 		})
-		r.Check(bad == "" && sawA && sawB, "C09.F4", "API:mpb.(*Bar).EnableTriggerComplete closure", w.pos(clo.Pos()),
+		r.Check(bad == "" && sawA && sawB, pfx+".F4", "API:mpb.(*Bar).EnableTriggerComplete closure", w.pos(clo.Pos()),
 			"no-op when enabled; current>=total => clamp+trigger; else enable", orStr(bad, "one of the two documented branches is missing"), wit...)
 	}
 
+}
+
+func ruleAbort(w *World, r *Report, pfx string, trig, pred *ssa.Function, opts pathOpts) {
 	// F5: Abort
 	if clo, off := w.apiClosure(r, "mpb.(*Bar).Abort"); clo != nil {
 		meth := off.Fn
@@ -356,9 +405,12 @@ func checkC09(w *World, r *Report) {
 				wit = p.describe()
 			}
 		})
-		r.Check(bad == "" && sawEff, "C09.F5", "API:mpb.(*Bar).Abort closure", w.pos(clo.Pos()), "effects only under !aborted && !completed()", orStr(bad, "no effective path"), wit...)
+		r.Check(bad == "" && sawEff, pfx+".F5", "API:mpb.(*Bar).Abort closure", w.pos(clo.Pos()), "effects only under !aborted && !completed()", orStr(bad, "no effective path"), wit...)
 	}
 
+}
+
+func rulePredicate(w *World, r *Report, pfx string, trig, pred *ssa.Function, opts pathOpts) {
 	// F6: completion predicate
 	{
 		bad := ""
@@ -393,9 +445,12 @@ func checkC09(w *World, r *Report) {
 				bad = "predicate may return true on a path without triggerComplete && current == total"
 			}
 		})
-		r.Check(bad == "" && sawTrue, "C09.F6", "completion predicate", w.pos(pred.Pos()), "true only under triggerComplete && current == total", orStr(bad, "predicate never returns true"))
+		r.Check(bad == "" && sawTrue, pfx+".F6", "completion predicate", w.pos(pred.Pos()), "true only under triggerComplete && current == total", orStr(bad, "predicate never returns true"))
 	}
 
+}
+
+func ruleCtorFlag(w *World, r *Report, pfx string, trig, pred *ssa.Function, opts pathOpts) {
 	// F7: constructor: triggerComplete <- true iff total > 0
 	if mk := w.makeBarStateFn(); mk != nil {
 		bad := ""
@@ -428,11 +483,14 @@ func checkC09(w *World, r *Report) {
 				bad = "constructor stores triggerComplete more than once"
 			}
 		})
-		r.Check(bad == "" && sawSet && sawUnset, "C09.F7", "bar state constructor", w.pos(mk.Pos()), "triggerComplete <- true exactly under total > 0", orStr(bad, "missing branch"))
+		r.Check(bad == "" && sawSet && sawUnset, pfx+".F7", "bar state constructor", w.pos(mk.Pos()), "triggerComplete <- true exactly under total > 0", orStr(bad, "missing branch"))
 	} else {
 		r.Unresolved("anchor", "bar state constructor", "function allocating bState not found")
 	}
 
+}
+
+func ruleSetRefill(w *World, r *Report, pfx string, trig, pred *ssa.Function, opts pathOpts) {
 	// F8: SetRefill caps the mark at current
 	if clo, off := w.apiClosure(r, "mpb.(*Bar).SetRefill"); clo != nil {
 		meth := off.Fn
@@ -461,9 +519,12 @@ func checkC09(w *World, r *Report) {
 				bad = "refill is assigned something other than the argument or current"
 			}
 		})
-		r.Check(bad == "" && sawArg && sawCur, "C09.F8", "API:mpb.(*Bar).SetRefill closure", w.pos(clo.Pos()), "refill = min(amount, current)", orStr(bad, "missing branch"))
+		r.Check(bad == "" && sawArg && sawCur, pfx+".F8", "API:mpb.(*Bar).SetRefill closure", w.pos(clo.Pos()), "refill = min(amount, current)", orStr(bad, "missing branch"))
 	}
 
+}
+
+func ruleGetters(w *World, r *Report, pfx string, trig, pred *ssa.Function, opts pathOpts) {
 	// F9: getters reply the field / the predicate, on both arms
 	for _, g := range []struct{ spec, field string }{{"mpb.(*Bar).Current", "current"}, {"mpb.(*Bar).Aborted", "aborted"}, {"mpb.(*Bar).Completed", ""}} {
 		clo, off := w.apiClosure(r, g.spec)
@@ -498,13 +559,16 @@ func checkC09(w *World, r *Report) {
 				okDirect = true
 			}
 		})
-		r.Check(okClo && okDirect, "C09.F9", "API:"+g.spec, w.pos(off.Fn.Pos()), "both arms report the same quantity", "getter arms do not both report bState."+orStr(g.field, "completed()"))
+		r.Check(okClo && okDirect, pfx+".F9", "API:"+g.spec, w.pos(off.Fn.Pos()), "both arms report the same quantity", "getter arms do not both report bState."+orStr(g.field, "completed()"))
 	}
 
+}
+
+func ruleShorthands(w *World, r *Report, pfx string, trig, pred *ssa.Function, opts pathOpts) {
 	// F10: shorthands pass through
 	for _, s := range []struct {
 		spec, target string
-		one         bool
+		one          bool
 	}{{"mpb.(*Bar).Increment", "mpb.(*Bar).IncrInt64", true}, {"mpb.(*Bar).IncrBy", "mpb.(*Bar).IncrInt64", false},
 		{"mpb.(*Bar).EwmaIncrement", "mpb.(*Bar).EwmaIncrInt64", true}, {"mpb.(*Bar).EwmaIncrBy", "mpb.(*Bar).EwmaIncrInt64", false}} {
 		fn, tgt := w.Func(s.spec), w.Func(s.target)
@@ -532,11 +596,8 @@ func checkC09(w *World, r *Report) {
 				}
 			}
 		}
-		r.Check(ok && n == 1, "C09.F10", "API:"+s.spec, w.pos(fn.Pos()), "single pass-through call", "shorthand does not forward its arguments unchanged to "+s.target)
+		r.Check(ok && n == 1, pfx+".F10", "API:"+s.spec, w.pos(fn.Pos()), "single pass-through call", "shorthand does not forward its arguments unchanged to "+s.target)
 	}
-	r.Floor("C09.F1v", 4, "increment/set closures")
-	r.Floor("C09.F9", 3, "getters")
-	r.Floor("C09.F10", 4, "shorthands")
 }
 
 func orStr(a, b string) string {
